@@ -568,17 +568,17 @@ static void c10Case(Rng &rng, CaseResult &r) {
 int main(int argc, char **argv) {
   std::vector<vf::Part> parts;
   auto add = [&](const std::string &name, vf::CaseFn fn, double budget = 20) { parts.push_back({name, fn, budget}); };
-  for (std::string prof : {"general", "rowhigh-any", "multirow", "turned", "polarity", "dense", "obstruction", "big"}) {
+  for (std::string prof : {"general", "rowhigh-any", "multirow", "turned", "polarity", "dense", "obstruction", "big", "crowded"}) {
     add("c01." + prof, [prof](uint64_t, Rng &rng, CaseResult &r) { flowCase(rng, r, prof, O_C01); });
     add("c02.api." + prof, [prof](uint64_t, Rng &rng, CaseResult &r) { flowCase(rng, r, prof, O_C02); });
     add("c04." + prof, [prof](uint64_t, Rng &rng, CaseResult &r) { flowCase(rng, r, prof, O_C04); });
   }
-  for (std::string prof : {"general", "nets", "polarity", "dense", "multirow", "rowhigh-any"})
+  for (std::string prof : {"general", "nets", "polarity", "dense", "multirow", "rowhigh-any", "crowded"})
     add("c05." + prof, [prof](uint64_t, Rng &rng, CaseResult &r) { flowCase(rng, r, prof, O_C05); });
-  for (std::string prof : {"general", "manyfixed", "dense", "obstruction"})
+  for (std::string prof : {"general", "manyfixed", "dense", "obstruction", "crowded"})
     add("c03.flow." + prof, [prof](uint64_t, Rng &rng, CaseResult &r) { flowCase(rng, r, prof, O_C03); });
   add("c03.global", [](uint64_t, Rng &rng, CaseResult &r) { c03Global(rng, r); });
-  for (std::string prof : {"general", "rowhigh", "obstruction", "polarity", "dense"})
+  for (std::string prof : {"general", "rowhigh", "obstruction", "polarity", "dense", "crowded"})
     add("c11.relegalize." + prof, [prof](uint64_t, Rng &rng, CaseResult &r) { flowCase(rng, r, prof, O_C11); });
   add("c11.constructed", [](uint64_t, Rng &rng, CaseResult &r) { c11Constructed(rng, r); });
   for (std::string prof : {"general", "degenerate", "big", "wide", "dense", "multirow", "obstruction", "floating"})
